@@ -336,6 +336,23 @@ func genC24(g *gen) {
 		}
 	}
 	sort.Strings(toggleWriters)
+	// validateToken: every bcrypt error rejects (`CompareHashAndPassword(...) != nil` guards `return false`)
+	rejectAny := false
+	if fd := findFunc(f, "Server", "validateToken"); fd != nil && fd.Body != nil {
+		ast.Inspect(fd.Body, func(n ast.Node) bool {
+			is, ok := n.(*ast.IfStmt)
+			if !ok {
+				return true
+			}
+			cond := nospace(src(is.Cond))
+			if is.Init == nil && strings.HasPrefix(cond, "bcrypt.CompareHashAndPassword(") && strings.HasSuffix(cond, ")!=nil") &&
+				nospace(src(is.Body)) == "{returnfalse}" {
+				rejectAny = true
+			}
+			return true
+		})
+	}
+	g.line("Definition gen_token_rejected_on_any_bcrypt_error : bool := %s.", coqBool(rejectAny))
 	g.line("Definition gen_server_config_literals : N := %d.", wiringSites)
 	g.line("Definition gen_server_config_wiring : list (string * string) := [%s].", strings.Join(wiring, "; "))
 	g.line("Definition gen_group_methods : list (string * string) := [%s].", strings.Join(methods, "; "))
